@@ -59,6 +59,11 @@ def nearest (num den : Nat) : Float :=
 
 /-- `f64::from_str` on the output of `fixed` (sign, digits, optional fraction) -/
 def parse (s : String) : Float :=
+  -- what `fixed` prints for non-finite values is read back as such by `f64::from_str`
+  if s == "NaN" then 0.0 / 0.0
+  else if s == "inf" then 1.0 / 0.0
+  else if s == "-inf" then -1.0 / 0.0
+  else
   let neg := s.startsWith "-"
   let body := if neg then (s.drop 1).toString else s
   match body.splitOn "." with
